@@ -101,9 +101,11 @@ def _run(ctx):
     edited = us[:3] if ctx.quick else us
     for n, u in enumerate(edited):
         jobs.append(("call", dict(module="harness.units", func="observe_solver", args=dict(u=u, kind="bar", history="layer-edit", prior_solver=bool(n % 2)))))
+    jobs.append(("call", dict(module="harness.units", func="gauge_blocks", args=dict(sizes=[100, 2 ** 14 + 1, 2 ** 15 + 1, 70000]))))
     jobs.append(("call", dict(module="harness.units", func="exact_triangles", args=dict(tris=tris[: (60 if ctx.quick else 400)]))))
     res = rf.replay_all(ctx, jobs)
     tri_obs = res.pop()
+    gauge_obs = res.pop()
     vals = units.constants(tdgl)
     by_u = {tuple(x["u"]): x["obs"] for x in res[: len(us)]}
     after_edit = res[len(us):]
@@ -153,6 +155,11 @@ def _run(ctx):
         traces.append({"tol": TOL_SCALE, "ev": abs_events(u, o) + ratio_events(u, o, REF, ref)})
         labels.append(("solver after an in-place layer edit", u))
         ctx.note_case(("solver after layer edit", tuple(u)), True)
+    for g in gauge_obs:           # one gauge over all positions handed to the applied potential, however many
+        qr = int(min(units.RCLIP, round(max(g["r_const"], g["r_flux"]) / units.QUANTUM)))
+        traces.append({"tol": TOL_SCALE, "ev": [{"ev": "flux", "u": REF, "n": g["ntri"], "r": qr}]})
+        labels.append(("gauge of the applied potential over N positions: " + g["form"] + (f" (raised {g['raised']})" if g.get("raised") else ""), g["N"]))
+        ctx.note_case(("gauge", g["form"], g["N"]), True)
     pairs = [(a, b) for a in us for b in us if a != b]
     rnd.shuffle(pairs)
     ev = []
@@ -257,6 +264,7 @@ def _run(ctx):
         refrun = mine[0][1]
         scale = {}
         qnames = ["abs_psi", "Js", "Jn", "dmu"] + (["epsilon"] if "epsilon" in refrun["frames"][0] else [])
+        pnames = [q for q in ("probe_voltage_records", "probe_phase_records") if q in refrun["frames"][-1]]
         for qn in qnames:
             scale[qn] = max(1e-12, max(max(abs(x) for x in fr[qn]) for fr in refrun["frames"]))
         scale["K"] = max(1e-300, max(max(abs(x) for x in v) for v in refrun["K_A_per_m"].values()))
@@ -266,6 +274,16 @@ def _run(ctx):
             for fr in r_["frames"]:
                 for qn in qnames:
                     ev.append({"run": rid, "key": f"step{fr['step']}/{qn}", "q": [int(round(x / scale[qn] * Q)) for x in fr[qn]]})
+            for fr in r_["frames"]:
+                for qn in pnames:
+                    if qn in fr:          # the recorded probe voltage / phase difference, step by step
+                        sc = scale["dmu"] if "voltage" in qn else 1.0
+                        ev.append({"run": rid, "key": f"step{fr['step']}/{qn}", "q": [int(max(-2e9, min(2e9, round(x / sc * Q)))) for x in fr[qn]]})
+                if "probe_voltage_frame" in fr:      # ... and against the frame's own fields at the sites the harness finds for the probe points
+                    ev.append({"run": rid + " (frame mu at the harness' probe sites)", "key": f"step{fr['step']}/probe voltage at the frame", "q": [int(round(x / scale["dmu"] * Q)) for x in fr["probe_voltage_frame"]]})
+                    ev.append({"run": rid + " (last record)", "key": f"step{fr['step']}/probe voltage at the frame", "q": [int(round(x / scale["dmu"] * Q)) for x in fr["probe_voltage_last_record"]]})
+                    ev.append({"run": rid + " (frame psi at the harness' probe sites)", "key": f"step{fr['step']}/probe phase difference at the frame", "q": [int(round(x * Q)) for x in fr["probe_phase_frame"]]})
+                    ev.append({"run": rid + " (last record)", "key": f"step{fr['step']}/probe phase difference at the frame", "q": [int(round(x * Q)) for x in fr["probe_phase_last_record"]]})
             for st, v in r_["K_A_per_m"].items():
                 ev.append({"run": rid, "key": f"step{st}/current_density[A/m]", "q": [int(round(x / scale["K"] * Q)) for x in v]})
             for st, fd in r_["fields"].items():
